@@ -5,8 +5,8 @@
 # Output: docs/SEED_RESULTS.txt - one line per (seed, check): rc and the keys printed.
 cd /verif
 [ -n "$(git -C /repo status --porcelain)" ] && { echo "/repo working tree is not clean"; exit 3; }
-out=docs/SEED_RESULTS.txt; : > $out.tmp
-for d in seeded/*/; do
+out=${SEED_OUT:-docs/SEED_RESULTS.txt}; : > $out.tmp
+for d in ${SEEDS:-seeded/*/}; do
   id=$(basename $d)
   checks=$(/venv/bin/python -c "import json;print(' '.join(json.load(open('$d/meta.json')).get('caught_by_checks',[])))")
   if ! git -C /repo apply $PWD/$d/patch.diff 2>/dev/null; then echo "$id: PATCH DOES NOT APPLY to /repo HEAD" >> $out.tmp; continue; fi
